@@ -274,17 +274,34 @@ impl<H: Hasher> MerkleTree<H> {
     /// Checks whether the `proof` for the specified `index` is valid.
     ///
     /// # Errors
-    /// Returns an error if the specified `proof` (which is a Merkle path) does not resolve to the
-    /// specified `root`.
+    /// Returns an error if:
+    /// * The specified `proof` (which is a Merkle path) consists of fewer than two nodes, or
+    ///   describes a tree which is too deep to be addressed.
+    /// * The specified `index` is greater than or equal to the number of leaves in a tree of
+    ///   the depth implied by the length of the `proof`.
+    /// * The specified `proof` does not resolve to the specified `root`.
     pub fn verify(
         root: H::Digest,
         index: usize,
         proof: &[H::Digest],
     ) -> Result<(), MerkleTreeError> {
+        // a Merkle path consists of a leaf, its sibling, and one node per remaining tree level
+        if proof.len() < 2 {
+            return Err(MerkleTreeError::InvalidProof);
+        }
+        let depth = proof.len() - 1;
+        if depth >= usize::BITS as usize {
+            return Err(MerkleTreeError::InvalidProof);
+        }
+        let num_leaves = 1usize << depth;
+        if index >= num_leaves {
+            return Err(MerkleTreeError::LeafIndexOutOfBounds(num_leaves, index));
+        }
+
         let r = index & 1;
         let mut v = H::merge(&[proof[r], proof[1 - r]]);
 
-        let mut index = (index + 2usize.pow((proof.len() - 1) as u32)) >> 1;
+        let mut index = (index + num_leaves) >> 1;
         for &p in proof.iter().skip(2) {
             v = if index & 1 == 0 {
                 H::merge(&[v, p])
@@ -362,7 +379,12 @@ fn map_indexes(
     indexes: &[usize],
     tree_depth: usize,
 ) -> Result<BTreeMap<usize, usize>, MerkleTreeError> {
-    let num_leaves = 2usize.pow(tree_depth as u32);
+    // a tree of this depth cannot be addressed with usize indexes (the depth of a batch proof is
+    // not validated at construction / deserialization time)
+    let num_leaves = match 2usize.checked_pow(tree_depth as u32) {
+        Some(num_leaves) => num_leaves,
+        None => return Err(MerkleTreeError::InvalidProof),
+    };
     let mut map = BTreeMap::new();
     for (i, index) in indexes.iter().cloned().enumerate() {
         map.insert(index, i);
